@@ -262,7 +262,7 @@ def gen_cases(ctx, extra_bias=None):
     # contract accounts in EVERY address-typed argument position, each on a fresh state, through admission and execution
     special = ["aergo.name", "aergo.system", "aergo.enterprise", "aergo.vault", "abcdefghijkl", "@A0", "@A1"]
     for addr in special:
-        for snd in (0, 1):
+        for snd in ((0,) if quick else (0, 1)):
             gi = newg()                                  # name-contract owner still unset
             cases.append(mk(gi, "aergo.name", ci("v1setOwner", [addr]), snd=snd))
             cases.append(mk(gi, "aergo.name", ci("v1setOwner", ["@A2"]), snd=snd))
@@ -285,7 +285,7 @@ def gen_cases(ctx, extra_bias=None):
         cases.append(mk(gi, "aergo.system", ci("v1voteBP", [addr]), bno=2))
         cases.append(mk(gi, "aergo.system", ci("v1voteBP", [addr, peer_id(rng)]), bno=3))
         cases.append(mk(gi, "aergo.system", ci("v1voteDAO", ["BPCOUNT", addr]), bno=4))
-        for ty in (TRANSFER, NORMAL, CALL, GOV, FEEDELEG):
+        for ty in ((TRANSFER, GOV) if quick else (TRANSFER, NORMAL, CALL, GOV, FEEDELEG)):
             gi = newg()                                  # as the recipient of every kind of transaction
             cases.append(mk(gi, addr, "" if ty != GOV else ci("v1stake", []), amt=5, ty=ty, pub=False))
     # enterprise conf values with the storage separator and other special characters, followed by the
